@@ -83,7 +83,8 @@ func (r *Runtime) Stop() {
 
 // Hooks are the plugin-side observation points; nil hooks are no-ops.
 type Hooks struct {
-	Sync   func(pods []*api.PodSandbox, ctrs []*api.Container)
+	Sync   func(pods []*api.PodSandbox, ctrs []*api.Container) error
+	Pod    func(pod *api.PodSandbox) // RunPodSandbox, UpdatePodSandbox, StopPodSandbox
 	Create func(pod *api.PodSandbox, ctr *api.Container)
 	Update func(pod *api.PodSandbox, ctr *api.Container)
 	Stop   func(pod *api.PodSandbox, ctr *api.Container)
@@ -91,8 +92,8 @@ type Hooks struct {
 }
 
 // Plugin is an in-process plugin connected through the real stub. It implements Configure,
-// Synchronize, CreateContainer, UpdateContainer, StopContainer and StartContainer, so its stub
-// subscribes to exactly those events.
+// Synchronize, CreateContainer, UpdateContainer, StopContainer, StartContainer, RunPodSandbox,
+// UpdatePodSandbox and StopPodSandbox, so its stub subscribes to exactly those events.
 type Plugin struct {
 	Idx, Name string
 	H         Hooks
@@ -123,9 +124,30 @@ func (p *Plugin) Configure(context.Context, string, string, string) (api.EventMa
 
 func (p *Plugin) Synchronize(_ context.Context, pods []*api.PodSandbox, ctrs []*api.Container) ([]*api.ContainerUpdate, error) {
 	if p.H.Sync != nil {
-		p.H.Sync(pods, ctrs)
+		return nil, p.H.Sync(pods, ctrs)
 	}
 	return nil, nil
+}
+
+func (p *Plugin) RunPodSandbox(_ context.Context, pod *api.PodSandbox) error {
+	if p.H.Pod != nil {
+		p.H.Pod(pod)
+	}
+	return nil
+}
+
+func (p *Plugin) UpdatePodSandbox(_ context.Context, pod *api.PodSandbox, _, _ *api.LinuxResources) error {
+	if p.H.Pod != nil {
+		p.H.Pod(pod)
+	}
+	return nil
+}
+
+func (p *Plugin) StopPodSandbox(_ context.Context, pod *api.PodSandbox) error {
+	if p.H.Pod != nil {
+		p.H.Pod(pod)
+	}
+	return nil
 }
 
 func (p *Plugin) CreateContainer(_ context.Context, pod *api.PodSandbox, ctr *api.Container) (*api.ContainerAdjustment, []*api.ContainerUpdate, error) {
